@@ -1622,3 +1622,7 @@ mod tests {
         );
     }
 }
+
+#[cfg(all(test, pendulum_project_ntpd_rs_verif))]
+#[path = "/verif/harness/statime_algo/probe_filter.rs"]
+pub(crate) mod verif_probe;
